@@ -68,6 +68,9 @@ structure Kind where
       entry: the slow path took a dead lease that `leasesByCircuitID` still held for the client's lease and "renewed"
       it (finding KF-dhcp4-stale-index-revival; the driver knows it from `staleHit` on the model) -/
   revived : List Nat := []
+  /-- cache maps that were write-protected while the operation ran (the fault ops before it say so): every Delete on
+      them failed and was only logged (finding KF-cache-delete-ignored) -/
+  ro : List Nat := []
   deriving Repr, DecidableEq
 
 def Kind.isTermination (k : Kind) : Bool := !k.terms.isEmpty || k.sweep || k.shutdown
@@ -134,6 +137,13 @@ def clFor (before after : Snap) (k : Kind) (name : String) (m : Nat) : String :=
     "KF-dhcp4-stale-index-revival"
   else "none"
 
+/-- the clause of a `cache-residue` verdict about a key of cache map `w` (3 subscriber_pools, 4 circuit_id_map,
+    5 circuit_id_subscribers).  KF-cache-delete-ignored: THAT map was write-protected while the operation ran - the
+    Delete of the key failed, the server logged it (or did not even look at the result) and went on; whatever else the
+    operation left behind, and every key of a map that was writable, is judged as before -/
+def clCache (before after : Snap) (k : Kind) (w m : Nat) : String :=
+  if !k.shutdown && k.ro.contains w then "KF-cache-delete-ignored" else clFor before after k "cache-residue" m
+
 /-- for one ended session: the address is back, the open accounting session got its Stop -/
 def endChecks (before after : Snap) (k : Kind) : Nat × Nat × String → List Verdict
   | (m, ip, path) =>
@@ -173,11 +183,11 @@ def vOrphans (before after : Snap) (k : Kind) : List Verdict :=
   ((after.orphanQos k.shutdown).filter (fun a => !((before.orphanQos false).contains a))).map (fun a =>
     ("qos-residue", clFor before after k "qos-residue" (ownerOf before k a), s!"{pathOf before k (ownerOf before k a)}: the QoS policy of a{a} is installed and no lease holds a{a}")) ++
   ((after.orphanMac k.shutdown).filter (fun m => !((before.orphanMac false).contains m))).map (fun m =>
-    ("cache-residue", clFor before after k "cache-residue" m, s!"mac: {pathOf before k m}: subscriber_pools answers for m{m}, which has no lease")) ++
+    ("cache-residue", clCache before after k 3 m, s!"mac: {pathOf before k m}: subscriber_pools answers for m{m}, which has no lease")) ++
   ((after.orphanCid k.shutdown).filter (fun c => !((before.orphanCid false).contains c))).map (fun c =>
-    ("cache-residue", clFor before after k "cache-residue" c.1, s!"circuit: {pathOf before k c.1}: circuit_id_subscribers answers for m{c.1}.c{c.2}, which is not the circuit-id of a lease of m{c.1}")) ++
+    ("cache-residue", clCache before after k 5 c.1, s!"circuit: {pathOf before k c.1}: circuit_id_subscribers answers for m{c.1}.c{c.2}, which is not the circuit-id of a lease of m{c.1}")) ++
   ((after.orphanHash k.shutdown).filter (fun c => !((before.orphanHash false).contains c))).map (fun c =>
-    ("cache-residue", clFor before after k "cache-residue" c.1, s!"circuit: {pathOf before k c.1}: circuit_id_map answers for m{c.1}.c{c.2}, which is not the circuit-id of a lease of m{c.1}")) ++
+    ("cache-residue", clCache before after k 4 c.1, s!"circuit: {pathOf before k c.1}: circuit_id_map answers for m{c.1}.c{c.2}, which is not the circuit-id of a lease of m{c.1}")) ++
   ((after.orphanIdx false).filter (fun c => !((before.orphanIdx false).contains c))).map (fun c =>
     ("index-residue", clFor before after k "index-residue" c.1, s!"{pathOf before k c.1}: leasesByCircuitID answers for m{c.1}.c{c.2} with a lease that is not in the lease table"))
 
@@ -218,6 +228,8 @@ structure Mon where
   prev : Snap := {}
   /-- MACs whose current lease was made from a stale circuit-id index entry -/
   revived : List Nat := []
+  /-- the write-protected cache maps, as the fault ops seen so far say -/
+  ro : List Nat := []
   deriving Repr, DecidableEq
 
 /-- an observation: the snapshot, and whether the operation reached its point of interest (`gap`: the cleanup pass had
@@ -262,8 +274,11 @@ def monitorCore (mn : Mon) (op : OpX) (ob : Obs) : Mon × List Verdict :=
   let rev := match hitOf mn.prev op with
     | some m => if mn.revived.contains m then mn.revived else m :: mn.revived
     | none => mn.revived
-  let vs := monitor mn.prev ob.snap { kindOf op ob.ran with revived := rev }
-  ({ prev := ob.snap, revived := rev.filter fun m => (ob.snap.leaseOf m).isSome }, vs)
+  let vs := monitor mn.prev ob.snap { kindOf op ob.ran with revived := rev, ro := mn.ro }
+  let ro' := match op with
+    | .wfault w on => if on then ins mn.ro w else rm mn.ro w
+    | _ => mn.ro
+  ({ prev := ob.snap, revived := rev.filter fun m => (ob.snap.leaseOf m).isSome, ro := ro' }, vs)
 
 /-! ### the model's own observation -/
 
